@@ -65,6 +65,9 @@ func (h *Handler) SyncGenesisHeader(native *native.NativeService) (err error) {
 		return fmt.Errorf("ZILHandler SyncGenesisHeader: %s", err)
 	}
 
+	if txBlockAndDsComm.TxBlock == nil || txBlockAndDsComm.TxBlock.BlockHeader == nil || txBlockAndDsComm.DsBlock == nil || txBlockAndDsComm.DsBlock.BlockHeader == nil {
+		return fmt.Errorf("ZILHandler SyncGenesisHeader, genesis needs a tx block and a ds block with their headers")
+	}
 	headerStore, err := native.GetCacheDB().Get(utils.ConcatKey(utils.HeaderSyncContractAddress, []byte(scom.GENESIS_HEADER), utils.GetUint64Bytes(params.ChainID)))
 	if err != nil {
 		return fmt.Errorf("ZILHandler GetHeaderByHeight, get blockHashStore error: %v", err)
